@@ -31,7 +31,8 @@ package path
 
 //@ func (p Property) IsCustom(iriExpander *misc.IriExpander) bool
 //@   requires iriExpander != nil
-//@   ensures [C15:custom-by-namespace-not-by-prefix] result == (expandErrF(mapvals(deref(iriExpander).Context), mapdom(deref(iriExpander).Context), p.Iri) == nil && indexOf(expandF(mapvals(deref(iriExpander).Context), mapdom(deref(iriExpander).Context), p.Iri), contexts.ApiExtensionUri) == 0)
+//@   verify [C02]
+//@   ensures [C15:custom-by-namespace-not-by-prefix,C02] result == (expandErrF(mapvals(deref(iriExpander).Context), mapdom(deref(iriExpander).Context), p.Iri) == nil && indexOf(expandF(mapvals(deref(iriExpander).Context), mapdom(deref(iriExpander).Context), p.Iri), contexts.ApiExtensionUri) == 0)
 
 // ---- the generated parser (peg.go) is outside the verifiable subset: assumed facts about it (C17) -------------------------
 
